@@ -327,6 +327,84 @@ func signing(r *ev.Run) {
 		one([]string{ips[0]}, []string{k}, false)
 		one([]string{ips[2], ips[0]}, []string{k, k}, false)
 	}
+	// the same Signer is used for several calls while the endpoints' health changes: every call starts from the first endpoint again
+	for k := 0; k < r.Pick(12, 120); k++ {
+		c := r.Case("sign-seq", k)
+		if c == nil {
+			continue
+		}
+		n := 2 + c.Rand.Intn(3)
+		list := append([]string{}, perms[k%len(perms)][:n]...)
+		conf := crypki.SignerConfig{TLSClientKeyFile: clientKey, TLSClientCertFile: clientCert, TLSCACertFiles: []string{caPath}, CrypkiEndpoints: list, CrypkiPort: uint(port), Retries: 1, PerTryTimeout: 300 * time.Millisecond}
+		signer, err := crypki.NewSigner(conf)
+		if err != nil {
+			r.Violation(c, "signer-construction-fails:sequence", err.Error(), nil)
+			continue
+		}
+		var hist []string
+		for call := 0; call < 4; call++ {
+			vec := make([]bool, n)
+			firstOK := -1
+			for i := range vec {
+				vec[i] = c.Rand.Intn(2) == 0
+				if call == 0 {
+					vec[i] = i > 0 // first call: the first endpoint is down, the rest healthy
+				}
+				if call == 1 {
+					vec[i] = true // then everything recovers
+				}
+				if vec[i] && firstOK < 0 {
+					firstOK = i
+				}
+			}
+			texts := make([]string, n)
+			for i, ip := range list {
+				ok := vec[i]
+				text, _, _ := reply(c.Rand, 1)
+				texts[i] = text
+				byIP[ip].Set(func(context.Context, *proto.SSHCertificateSigningRequest) (*proto.SSHKey, error) {
+					if ok {
+						return &proto.SSHKey{Key: text}, nil
+					}
+					return nil, status.Error(codes.Unavailable, "down")
+				})
+			}
+			r.Eval(1)
+			ctx, cancel := context.WithTimeout(context.Background(), 20*time.Second)
+			certs, _, serr := signer.Sign(ctx, &proto.SSHCertificateSigningRequest{KeyMeta: &proto.KeyMeta{Identifier: "x"}, Principals: []string{"a"}, PublicKey: "k", Validity: 60})
+			cancel()
+			hist = append(hist, fmt.Sprintf("call %d health=%v -> certs=%d err=%v", call, vec, len(certs), serr))
+			rec := map[string]any{"endpoints": list, "history": hist}
+			bad := false
+			for i, ip := range list {
+				got := len(byIP[ip].Calls())
+				want := 0
+				if firstOK < 0 || i <= firstOK {
+					want = 1
+				}
+				if got != want {
+					r.Violation(c, fmt.Sprintf("order-not-restarted-on-later-call:call=%d", call), fmt.Sprintf("endpoint #%d received %d requests, expected %d; history: %v", i, got, want, hist), rec)
+					bad = true
+					break
+				}
+			}
+			if bad {
+				break
+			}
+			if firstOK >= 0 {
+				want, _, _, _, _ := ssh.ParseAuthorizedKey([]byte(texts[firstOK]))
+				if serr != nil || len(certs) != 1 || string(certs[0].Marshal()) != string(want.Marshal()) {
+					r.Violation(c, "later-call-returns-wrong-endpoints-certificates", fmt.Sprintf("history: %v", hist), rec)
+					break
+				}
+			} else if serr == nil {
+				r.Violation(c, "empty-success:sequence", fmt.Sprintf("history: %v", hist), rec)
+				break
+			}
+			r.Count("calls on a reused signer judged", 1)
+		}
+		r.Nontrivial(fmt.Sprintf("seq:%v:%v", list, hist))
+	}
 	r.Extra("signing_cases", idx)
 }
 
